@@ -41,6 +41,7 @@ type catchEvent struct {
 	activated       atomic.Bool
 	awaitingActions []chan IAction
 	once            sync.Once
+	started         atomic.Bool
 	satisfier       *logic.CatchEventSatisfier
 }
 
@@ -96,6 +97,11 @@ func (evt *catchEvent) run(ctx context.Context, sender tracing.ISenderHandle) {
 }
 
 func (evt *catchEvent) ConsumeEvent(ev event.IEvent) (result event.ConsumptionResult, err error) {
+	if !evt.started.Load() {
+		// no token has reached this node yet: nobody is listening and nobody reads the inbox
+		result = event.Consumed
+		return
+	}
 	evt.mch <- processEventMessage{event: ev}
 	result = event.Consumed
 	return
@@ -104,6 +110,7 @@ func (evt *catchEvent) ConsumeEvent(ev event.IEvent) (result event.ConsumptionRe
 func (evt *catchEvent) NextAction(ctx context.Context, flow Flow) chan IAction {
 	evt.once.Do(func() {
 		sender := evt.tracer.RegisterSender()
+		evt.started.Store(true)
 		go evt.run(ctx, sender)
 	})
 
